@@ -36,7 +36,9 @@ META = {
                "confirmation, waiting for the answer) on a gateway that confirms / answers it or not, followed "
                "by a second send that must get its own answer in time",
                "3 / 4 concurrent in-transaction senders (two command slots: the rest are parked) with nothing "
-               "reported before the adapter is lost, then a send after the reconnection"],
+               "reported before the adapter is lost, then a send after the reconnection",
+               "Tridonic: a device-type command whose ENABLE DEVICE TYPE completed and whose own frame is lost "
+               "(after the write / after the echo), optionally with a late report for it after the reconnection"],
     "stubs": ["fake os / transport (harness environment)", "struct format interpreter in symbolic mode"],
     "outside": ["3 callers x every quiescent point", "OS-level behaviour of os.read / add_reader",
                 "sends issued while the device is away and never returns (they wait by design)"],
